@@ -304,6 +304,8 @@ def given_value(acls, pname, default, opname, n_results, variant=0):
         return 0.8125 if default == 0.4375 else 0.4375
     if acls == "str":
         return ("other " if variant else "given ") + pname
+    if variant == 2 and acls in ("ints", "floats", "strs"):
+        return ()       # an explicitly given EMPTY list is a given attribute (of length 0), not an absent one
     if acls == "ints":
         return (7,) if variant else (3, 1, 2)
     if acls == "floats":
@@ -357,6 +359,7 @@ def call_once(ctx, pat, mode, attempt):
     names = []  # (var, name)
     pos_args, args_desc = [], []
     shared = {}  # with pat["share"]: ONE Var object (hence one name) for all slots of the same sentinel type
+    var_lists = []  # the list objects passed for variadic parameters: the caller goes on using them after the call
 
     def fresh(typ, name):
         key = repr(typ)
@@ -384,6 +387,7 @@ def call_once(ctx, pat, mode, attempt):
         elif k == "SeqVar":
             pairs = [fresh(typ, f"i{i}_{j}") for j in range(pat["varlen"])]
             pos_args.append([v for v, _ in pairs])
+            var_lists.append((pos_args[-1], typ))
             args_desc.append(("V", [n for _, n in pairs]))
         else:
             raise TypeError(f"positional parameter {pname} of class {k}")
@@ -411,6 +415,12 @@ def call_once(ctx, pat, mode, attempt):
             else:
                 setattr(ctx.cls, meth, old)
     nodes = [n for n in CREATED if isinstance(n, StandardNode)]
+    CREATED.clear()
+    for lst, typ in var_lists:
+        # the slot was filled with the list's contents AT THE CALL; what the caller does to its list afterwards is its business
+        late = mk_var(typ, typed)
+        names.append((late, "appended_after_the_call"))
+        lst.append(late)
     CREATED.clear()
     if len(nodes) != 1:
         raise RuntimeError(f"constructor created {len(nodes)} standard nodes")
@@ -515,6 +525,9 @@ def patterns(ctx, rng=None, n_random=0):
     for a in opt_attrs:
         add("attr:" + a, opt_inputs, 1, [a])
         add("attr-only:" + a, [], 1, [a])
+    for a, acls, _o, d in ctx.kw:
+        if d is not inspect.Parameter.empty and acls in ("ints", "floats", "strs"):
+            add("attr-empty-list:" + a, [], 1, [a], variant=2)
     add("all-attrs", [], 1, opt_attrs)
     add("all-attrs+all-inputs", opt_inputs, 1, opt_attrs)
     add("no-attrs+all-inputs", opt_inputs, 1, [])
